@@ -90,3 +90,26 @@ package ctpolicy
 //@ pure
 //@ requires group != nil
 //@ loop 1 step-assert [only-positive-weights-of-the-groups-own-logs-are-counted] (next(nonZeroNum) == head(nonZeroNum) + 1 && (has(group.LogURLs, logURL) && group.LogURLs[logURL]) && w > 0) || (next(nonZeroNum) == head(nonZeroNum) && !((has(group.LogURLs, logURL) && group.LogURLs[logURL]) && w > 0))
+
+// C17 "no log was sent the chain more than once": a group's submission session is the order in which
+// its logs are tried. Every entry is a weighted log of the group with a non-zero weight, and no log
+// appears twice (each sampled log leaves the set the next sample is drawn from).
+//@ func weightedRandomSample
+//@ props C17
+//@ arith int
+//@ pure
+//@ ensures [a-sampled-item-is-in-the-set-with-a-non-zero-weight] result1 == nil ==> has(weights, result0) && weights[result0] != 0
+
+//@ func (*LogGroupInfo).GetSubmissionSession
+//@ props C17
+//@ arith int
+//@ loop-frames
+//@ site weightedRandomSample#1 as ws
+//@ requires group != nil
+//@ loop 1 invariant forall s string :: has(unProcessedWeights, s) ==> has(group.LogWeights, s)
+//@ loop 2 invariant forall s string :: has(unProcessedWeights, s) ==> has(group.LogWeights, s)
+//@ loop 2 invariant forall j int :: 0 <= j && j < len(session) ==> !has(unProcessedWeights, session[j]) && has(group.LogWeights, session[j])
+//@ loop 2 invariant forall j int :: 0 <= j && j < len(session) ==> (forall k int :: 0 <= k && k < j ==> session[k] != session[j])
+//@ at ws assert [sampled-from-the-logs-not-yet-in-the-session] ws.weights == unProcessedWeights
+//@ ensures [every-entry-is-a-weighted-log-of-the-group] forall j int :: 0 <= j && j < len(result) ==> has(group.LogWeights, result[j])
+//@ ensures [no-log-appears-twice] forall j int :: 0 <= j && j < len(result) ==> (forall k int :: 0 <= k && k < j ==> result[k] != result[j])
